@@ -23,6 +23,8 @@ DISPATCH = {
     "C11": ("harness.props.c11", "run"),
     "C14": ("harness.props.c14", "run"),
     "C15": ("harness.props.c15", "run"),
+    "C16": ("harness.props.c16", "run"),
+    "C17": ("harness.props.c17", "run"),
 }
 
 
